@@ -89,10 +89,21 @@ def draw_cfg(rng, profile, tier):
     if rng.random() < p.get('p_focus', 0.3):
         names = sorted(enabled)
         pick = {}
-        for _ in range(rng.choice([2, 2, 3])):
+        # one operation by the profile's weights (the property's own), the
+        # others from those that can change a table in place (what is most
+        # likely to invalidate what the first one left behind), else any
+        mutators = [o for o in names if o in (
+            'filter', 'remove_empty', 'update_ids', 'add_metadata',
+            'del_metadata', 'transform', 'norm', 'pa', 'rankdata')]
+        for j in range(rng.choice([2, 2, 3])):
             rest = {o: enabled[o] for o in names if o not in pick}
             if not rest:
                 break
+            if j and rng.random() < 0.7:
+                cand = [o for o in mutators if o not in pick]
+                if cand:
+                    pick[rng.choice(cand)] = 1.0
+                    continue
             o = wchoice(rng, rest)
             pick[o] = 1.0
         cfg['ops'] = pick
